@@ -57,6 +57,30 @@ func (r *faultReader) Read(p []byte) (int, error) {
 	return n, nil
 }
 
+// transientReader fails once, after `pre` has been delivered, and then goes on with `post`.
+type transientReader struct {
+	pre, post []byte
+	failed    bool
+}
+
+func (r *transientReader) Read(p []byte) (int, error) {
+	if len(r.pre) > 0 {
+		n := copy(p, r.pre)
+		r.pre = r.pre[n:]
+		return n, nil
+	}
+	if !r.failed {
+		r.failed = true
+		return 0, errReader
+	}
+	if len(r.post) == 0 {
+		return 0, io.EOF
+	}
+	n := copy(p, r.post)
+	r.post = r.post[n:]
+	return n, nil
+}
+
 func newReader(doc []byte, fail bool) io.Reader {
 	return &faultReader{data: doc, fail: fail}
 }
